@@ -191,42 +191,47 @@ def run(ctx):
             facts_at[id(n)] = facts
 
         GuardWalker(on_expr=on_expr).walk_function(cf.node)
-        # the locals that hold the located node and the rewriting visitor, whatever they are called
-        orig_var = rw_var = None
-        for n in iter_own(cf.node):
+        # _conform_filename and the private helpers only it calls (an extracted `_rewrite_file`, ...)
+        from ..region import Facts, Region
+
+        reg = Region(index, graph, cf)
+        rfacts = Facts(index, graph)
+        # the locals that hold the located node and the rewriting visitor, whatever they are called and wherever they live
+        orig_vars, rw_vars = set(), set()
+        for g, n in reg.nodes():
             if isinstance(n, (ast.Assign, ast.AnnAssign)) and isinstance(n.value, ast.Call):
                 t = n.targets[0] if isinstance(n, ast.Assign) else n.target
                 if isinstance(t, ast.Name):
-                    cal = index.callee(cf.mod, n.value, cf) or norm(n.value.func)
+                    cal = index.callee(g.mod, n.value, g) or norm(n.value.func)
                     if cal.endswith("find_in_ast"):
-                        orig_var = t.id
+                        orig_vars.add(t.id)
                     elif cal.rpartition(".")[2] == "RewriteAtQuery":
-                        rw_var = t.id
-        ctx.need(orig_var and rw_var, "cannot find the locals holding find_in_ast(...) / RewriteAtQuery(...) in _conform_filename")
-        writes = [(n, w, mode) for n, w, mode in wm.wrapper_write_sites.get(cf.qual, ()) if isinstance(n, ast.Call)]
+                        rw_vars.add(t.id)
+        ctx.need(orig_vars and rw_vars, "cannot find the locals holding find_in_ast(...) / RewriteAtQuery(...) in _conform_filename")
+        writes = [(g, n, w, mode) for g in reg.funcs for n, w, mode in wm.wrapper_write_sites.get(g.qual, ()) if isinstance(n, ast.Call)]
         ctx.need(len(writes) >= 2, "expected at least two file() writes in _conform_filename, found {}".format(len(writes)))
         n_trunc = 0
-        for call, _w, mode in writes:
-            facts = facts_at.get(id(call)) or {}
+        from ..defuse import local_defs
+
+        for g, call, _w, mode in writes:
+            facts = rfacts.at(g, call, ascend_from=reg.funcs[1:]) or {}
             created = facts.get("path.isfile(filename)") is False
-            appended = facts.get("{} is None".format(orig_var)) is True and mode == "a"
+            appended = any(facts.get("{} is None".format(v)) is True for v in orig_vars) and mode == "a"
             if created or appended:
-                ctx.ob("C12.gate", cf, short(call, 70), True, "creation write", line=call.lineno)
+                ctx.ob("C12.gate", g, short(call, 70), True, "creation write", line=call.lineno)
                 continue
             n_trunc += 1
             changed = any(k.startswith("cmp_ast(") and v is False for k, v in facts.items())
-            replaced = facts.get("{}.replaced".format(rw_var)) is True
+            replaced = any(facts.get("{}.replaced".format(v)) is True for v in rw_vars)
             if not replaced:
                 # ... or a local that was bound once to <RewriteAtQuery>.replaced
-                from ..defuse import local_defs
-
-                for nm, ds in local_defs(cf).items():
-                    if len(ds) == 1 and isinstance(ds[0], ast.AST) and norm(ds[0]) == "{}.replaced".format(rw_var) and facts.get(nm) is True:
+                for nm, ds in local_defs(g).items():
+                    if len(ds) == 1 and isinstance(ds[0], ast.AST) and any(norm(ds[0]) == "{}.replaced".format(v) for v in rw_vars) and facts.get(nm) is True:
                         replaced = True
             ok = changed and replaced
             ctx.ob(
                 "C12.gate",
-                cf,
+                g,
                 short(call, 70),
                 ok,
                 ""
